@@ -9,7 +9,7 @@ local macro "len_omega" : tactic =>
   `(tactic| ((try simp only [List.length_append, List.length_cons, List.length_nil]) <;> (try omega)))
 local macro "lst" : tactic => `(tactic| ((try simp only [List.append_assoc, List.cons_append, List.nil_append]) <;> (try rfl)))
 
-theorem tr_for (fuel : Nat) (env : Src.Env) (he : PlainEnv env) (init inc : Src.Stmt) (t : Ev) (B : Src.Stmts) (k : Nat) (b : Src.B) :
+theorem tr_for (fuel : Nat) (env : Src.Env) (he : EnvOK cx env) (init inc : Src.Stmt) (t : Ev) (B : Src.Stmts) (k : Nat) (b : Src.B) :
     Src.tr fuel [] env (.for_ init t inc B) k b =
       Src.tr fuel [] env init (tbl b).length
         ((Src.trStmts fuel [] (loopEnv env (Src.tr fuel [] env inc (tbl b).length (b.push (.halt (evInvalid "loop test"))).1).2 k) B
@@ -25,19 +25,20 @@ theorem afterCtxL_label {rs : List (List LItem)} {r i : Nat} {l : Nat} {nm : Boo
     afterCtxL rs ⟨r, i + 1⟩ = false := by
   rw [afterCtxL_succ, h]; rfl
 
-theorem for_core (cx : Cx) (fuel : Nat) (env : Src.Env) (he : PlainEnv env) (lb : Nat) (hd : Hdr) (init inc : Stmt) (body : Stmts)
+theorem for_core (cx : Cx) (fuel : Nat) (env : Src.Env) (he : EnvOK cx env) (lb : Nat) (hd : Hdr) (init inc : Stmt) (body : Stmts)
     (ht : isTest hd.name = true) {s sa sb s' : St} {ii ee ops : List LItem} (o1 o2 sL eB : Nat)
     (hI : SimpleOK cx ii (fun k b => Src.tr fuel [] env (toSrcStmt init) k b))
     (hE : SimpleOK cx ee (fun k b => Src.tr fuel [] env (toSrcStmt inc) k b))
-    (hP : ∀ env', PlainEnv env' → PieceOK cx ops sa sb (fun k b => Src.trStmts fuel [] env' (toSrcStmts body) k b) env')
-    (hsaL : sa.loops = (lb + 4, lb + 2) :: s.loops) (hsaC : sa.cases = s.cases) (hl : s'.loops = s.loops) (hc : s'.cases = s.cases) :
+    (hP : ∀ env', EnvOK cx env' → PieceOK cx ops sa sb (fun k b => Src.trStmts fuel [] env' (toSrcStmts body) k b) env')
+    (hsaL : sa.loops = (lb + 4, lb + 2) :: s.loops) (hsaC : sa.cases = s.cases) (hl : s'.loops = s.loops) (hc : s'.cases = s.cases)
+    (hnA : NamedLe s sa) (hnB : NamedLe sb s') :
     PieceOK cx ([LItem.label (lb + 1) false] ++ ii ++ [LItem.ljump ⟨o1, Gen.op_jump, []⟩ (some (lb + 5)), LItem.label (lb + 3) false] ++
         ([LItem.label sL false] ++ ops ++ [LItem.label eB false]) ++ [LItem.label (lb + 4) false] ++ ee ++
         [LItem.label (lb + 5) false, LItem.ljump ⟨o2, hd.name, hd.params⟩ (some (lb + 3)), LItem.label (lb + 2) false]) s s'
       (fun k b => Src.tr fuel [] env (.for_ (toSrcStmt init) (hdrEv hd) (toSrcStmt inc) (toSrcStmts body)) k b) env := by
   have hP0 := hP env he
   have htr := fun k b => tr_for fuel env he (toSrcStmt init) (toSrcStmt inc) (hdrEv hd) (toSrcStmts body) k b
-  have hg4 : ∀ k b, Grow b
+  have hg4 : ∀ k b, Grow cx.Z b
       ((Src.trStmts fuel [] (loopEnv env (Src.tr fuel [] env (toSrcStmt inc) (tbl b).length (b.push (.halt (evInvalid "loop test"))).1).2 k)
           (toSrcStmts body) (Src.tr fuel [] env (toSrcStmt inc) (tbl b).length (b.push (.halt (evInvalid "loop test"))).1).2
           (Src.tr fuel [] env (toSrcStmt inc) (tbl b).length (b.push (.halt (evInvalid "loop test"))).1).1).1.set (tbl b).length
@@ -46,7 +47,7 @@ theorem for_core (cx : Cx) (fuel : Nat) (env : Src.Env) (he : PlainEnv env) (lb 
           (Src.tr fuel [] env (toSrcStmt inc) (tbl b).length (b.push (.halt (evInvalid "loop test"))).1).1).2 k)) := by
     intro k b
     exact (((Grow.push b _).trans (hE.grow _ _)).trans ((hP _ (plainEnv_loopEnv he _ _)).grow _ _)).set_ge (Nat.le_refl _) _
-  have hgrow : ∀ k b, Grow b (Src.tr fuel [] env (.for_ (toSrcStmt init) (hdrEv hd) (toSrcStmt inc) (toSrcStmts body)) k b).1 := by
+  have hgrow : ∀ k b, Grow cx.Z b (Src.tr fuel [] env (.for_ (toSrcStmt init) (hdrEv hd) (toSrcStmt inc) (toSrcStmts body)) k b).1 := by
     intro k b
     rw [htr]
     exact (hg4 k b).trans (hI.grow _ _)
@@ -57,7 +58,7 @@ theorem for_core (cx : Cx) (fuel : Nat) (env : Src.Env) (he : PlainEnv env) (lb 
         ([LItem.label sL false] ++ ops ++ [LItem.label eB false]) ++ [LItem.label (lb + 4) false] ++ ee ++
         [LItem.label (lb + 5) false, LItem.ljump ⟨o2, hd.name, hd.params⟩ (some (lb + 3))]) (lb + 2) false
     simpa [List.append_assoc] using this
-  refine ⟨hl, hc, ?_, ?_, ?_, ?_, hgrow, ?_⟩
+  refine ⟨hl, hc, (hnA.trans hP0.named).trans hnB, ?_, ?_, ?_, ?_, hgrow, ?_⟩
   · have := lastNotCtx_snoc_label ([LItem.label (lb + 1) false] ++ ii ++ [LItem.ljump ⟨o1, Gen.op_jump, []⟩ (some (lb + 5)), LItem.label (lb + 3) false] ++
         ([LItem.label sL false] ++ ops ++ [LItem.label eB false]) ++ [LItem.label (lb + 4) false] ++ ee ++
         [LItem.label (lb + 5) false, LItem.ljump ⟨o2, hd.name, hd.params⟩ (some (lb + 3))]) (lb + 2) false
@@ -71,26 +72,27 @@ theorem for_core (cx : Cx) (fuel : Nat) (env : Src.Env) (he : PlainEnv env) (lb 
     cases ii with
     | nil => simp only [List.append_assoc, List.cons_append, List.nil_append, loneJump_two] at hl'; cases hl'
     | cons x xs => simp only [List.append_assoc, List.cons_append, List.nil_append, loneJump_two] at hl'; cases hl'
-  intro r i0 hp hpre k b hag m j hex hcont
+  intro r i0 hp hpre k b hag m j hex hin hcont
+  have hinB : NamedIn cx sb := hin.le hnB
   have hend := hcont hfalls
   rw [htr] at hag ⊢
   -- names for the parts of the source translation
   generalize hRI : Src.tr fuel [] env (toSrcStmt inc) (tbl b).length (b.push (.halt (evInvalid "loop test"))).1 = RI at hag ⊢
-  have hgI : Grow (b.push (.halt (evInvalid "loop test"))).1 RI.1 := by rw [← hRI]; exact hE.grow _ _
+  have hgI : Grow cx.Z (b.push (.halt (evInvalid "loop test"))).1 RI.1 := by rw [← hRI]; exact hE.grow _ _
   have hPe := hP (loopEnv env RI.2 k) (plainEnv_loopEnv he _ _)
   generalize hRB : Src.trStmts fuel [] (loopEnv env RI.2 k) (toSrcStmts body) RI.2 RI.1 = RB at hag ⊢
-  have hgB : Grow RI.1 RB.1 := by rw [← hRB]; exact hPe.grow _ _
-  have hg4' : Grow b (RB.1.set (tbl b).length (.test (hdrEv hd) RB.2 k)) :=
+  have hgB : Grow cx.Z RI.1 RB.1 := by rw [← hRB]; exact hPe.grow _ _
+  have hg4' : Grow cx.Z b (RB.1.set (tbl b).length (.test (hdrEv hd) RB.2 k)) :=
     (((Grow.push b _).trans hgI).trans hgB).set_ge (Nat.le_refl _) _
   have hgInit := hI.grow (tbl b).length (RB.1.set (tbl b).length (.test (hdrEv hd) RB.2 k))
-  have agI : AgreeOn cx.N (RB.1.set (tbl b).length (.test (hdrEv hd) RB.2 k))
+  have agI : AgreeOn cx.N cx.Z (RB.1.set (tbl b).length (.test (hdrEv hd) RB.2 k))
       (Src.tr fuel [] env (toSrcStmt init) (tbl b).length (RB.1.set (tbl b).length (.test (hdrEv hd) RB.2 k))).1 :=
     hag.sub_grow hg4' (Grow.refl _)
-  have ag4 : AgreeOn cx.N b (RB.1.set (tbl b).length (.test (hdrEv hd) RB.2 k)) :=
-    hag.sub (Nat.le_refl _) hgInit.len (fun i _ h2 => hgInit.get h2)
+  have ag4 : AgreeOn cx.N cx.Z b (RB.1.set (tbl b).length (.test (hdrEv hd) RB.2 k)) :=
+    hag.sub_grow (Grow.refl b) hgInit
   obtain ⟨hNt, ag13⟩ := agree_set ag4 (hgI.trans hgB)
-  have agE : AgreeOn cx.N (b.push (.halt (evInvalid "loop test"))).1 RI.1 := ag13.sub_grow (Grow.refl _) hgB
-  have agB : AgreeOn cx.N RI.1 RB.1 := ag13.sub_grow hgI (Grow.refl _)
+  have agE : AgreeOn cx.N cx.Z (b.push (.halt (evInvalid "loop test"))).1 RI.1 := ag13.sub_grow (Grow.refl _) hgB
+  have agB : AgreeOn cx.N cx.Z RI.1 RB.1 := ag13.sub_grow hgI (Grow.refl _)
   -- positions
   have hit0 : itemAt cx.rs ⟨r, i0⟩ = some (.label (lb + 1) false) := hp.here' [] _ _ (by lst) (by len_omega)
   have hpI : Placed cx.rs r (i0 + 1) ii := hp.mid' [LItem.label (lb + 1) false] ii _ (by lst) (by len_omega)
@@ -141,25 +143,16 @@ theorem for_core (cx : Cx) (fuel : Nat) (env : Src.Env) (he : PlainEnv env) (lb 
   have hstepT := lab_test hitT (isTest_not_jump _ ht) ht
   have hev : (⟨hd.name, convParams hd.params⟩ : Ev) = hdrEv hd := rfl
   simp only [hev] at hstepT
-  -- the loop point is the label of the test
-  have hQ : R2 cx m j ⟨r, i0 + ii.length + ops.length + ee.length + 6⟩ (tbl b).length := by
-    refine loop_ind (fun m j => ExitsOK cx m j s env ∧ R2 cx m j ⟨r, i0 + (ii.length + ops.length + ee.length + 9)⟩ k)
-      (fun m j m' j' h hlt => ⟨h.1.down j' hlt, h.2.down j' hlt⟩) (fun m j j' h hle => ⟨h.1.monoJ hle, h.2.monoJ hle⟩) ?_ m j ⟨hex, hend⟩
-    intro m j hyp lower _
-    have hbrkAt : ∀ m' j', ExitsOK cx m' j' s env ∧ R2 cx m' j' ⟨r, i0 + (ii.length + ops.length + ee.length + 9)⟩ k →
-        R2 cx m' j' ⟨r, i0 + ii.length + ops.length + ee.length + 8⟩ k := by
-      intro m' j' hy
-      refine R2.silL (lab_label hitE) ?_
-      rw [LPos.next_eq r _ (i0 + (ii.length + ops.length + ee.length + 9)) (by omega)]; exact hy.2
-    refine R2.silL (lab_label hit5) ?_
-    rw [LPos.next_eq r _ (i0 + ii.length + ops.length + ee.length + 7) rfl]
-    refine R2.test hstepT (nodeStep_of hNt) ?_
-      (by rw [LPos.next_eq r _ (i0 + ii.length + ops.length + ee.length + 8) rfl]; exact (hbrkAt m j hyp).1)
-    rw [htgt3]
-    refine E.silL (lab_label hit3) (EE_of_lower (fun m' j' hlt => ?_))
-    have hy' : ExitsOK cx m' j' s env ∧ R2 cx m' j' ⟨r, i0 + (ii.length + ops.length + ee.length + 9)⟩ k :=
-      ⟨hyp.1.down j' hlt, hyp.2.down j' hlt⟩
-    have hQh := lower m' j' hlt
+  have hbrkAt : ∀ m' j', ExitsOK cx m' j' s env ∧ R2 cx m' j' ⟨r, i0 + (ii.length + ops.length + ee.length + 9)⟩ k →
+      R2 cx m' j' ⟨r, i0 + ii.length + ops.length + ee.length + 8⟩ k := by
+    intro m' j' hy
+    refine R2.silL (lab_label hitE) ?_
+    rw [LPos.next_eq r _ (i0 + (ii.length + ops.length + ee.length + 9)) (by omega)]; exact hy.2
+  -- the body, given the loop point (the label of the test)
+  have hbodyAt : ∀ m' j', ExitsOK cx m' j' s env ∧ R2 cx m' j' ⟨r, i0 + (ii.length + ops.length + ee.length + 9)⟩ k →
+      R2 cx m' j' ⟨r, i0 + ii.length + ops.length + ee.length + 6⟩ (tbl b).length →
+      R2 cx m' j' ⟨r, i0 + ii.length + 3⟩ RB.2 ∧ LabExport cx (loopEnv env RI.2 k) m' j' RI.1 RB.1 := by
+    intro m' j' hy' hQh
     -- the increment statement, entered at its label
     have hinc : R2 cx m' j' ⟨r, i0 + ii.length + ops.length + 5⟩ RI.2 := by
       refine R2.silL (lab_label hit4) ?_
@@ -174,26 +167,47 @@ theorem for_core (cx : Cx) (fuel : Nat) (env : Src.Env) (he : PlainEnv env) (lb 
     have hafter : R2 cx m' j' ⟨r, i0 + ii.length + 3 + ops.length + 2⟩ RI.2 := by
       have e : i0 + ii.length + 3 + ops.length + 2 = i0 + ii.length + ops.length + 5 := by omega
       rw [e]; exact hinc
-    rw [LPos.next_eq r _ (i0 + ii.length + 3) rfl]
-    have := loop_body_run cx hPe sL eB _ hpBlk RI.2 RI.1 (by rw [hRB]; exact agB) m' j' hex' hafter
+    have := loop_body_run cx hPe sL eB _ hpBlk RI.2 RI.1 (by rw [hRB]; exact agB) m' j' hex' hinB hafter
     rw [hRB] at this; exact this
-  -- the init statement, then the jump to the test
-  refine R2.silL (lab_label hit0) ?_
-  rw [LPos.next_eq r _ (i0 + 1) rfl]
-  refine hI.corr r _ hpI (afterCtxL_label hit0) (tbl b).length _ agI m j (fun _ => ?_)
-  have e : i0 + 1 + ii.length = i0 + ii.length + 1 := by omega
-  rw [e]
-  refine R2.silL (lab_jump hitJ jump_isJump) ?_
-  rw [htgt5]; exact hQ
+  have hhead : ∀ m j, ExitsOK cx m j s env ∧ R2 cx m j ⟨r, i0 + (ii.length + ops.length + ee.length + 9)⟩ k →
+      R2 cx m j ⟨r, i0 + ii.length + ops.length + ee.length + 6⟩ (tbl b).length := by
+    refine loop_ind (fun m j => ExitsOK cx m j s env ∧ R2 cx m j ⟨r, i0 + (ii.length + ops.length + ee.length + 9)⟩ k)
+      (fun m j m' j' h hlt => ⟨h.1.down j' hlt, h.2.down j' hlt⟩) (fun m j j' h hle => ⟨h.1.monoJ hle, h.2.monoJ hle⟩) ?_
+    intro m j hyp lower _
+    refine R2.silL (lab_label hit5) ?_
+    rw [LPos.next_eq r _ (i0 + ii.length + ops.length + ee.length + 7) rfl]
+    refine R2.test hstepT (nodeStep_of hNt) ?_
+      (by rw [LPos.next_eq r _ (i0 + ii.length + ops.length + ee.length + 8) rfl]; exact (hbrkAt m j hyp).1)
+    rw [htgt3]
+    refine E.silL (lab_label hit3) (EE_of_lower (fun m' j' hlt => ?_))
+    rw [LPos.next_eq r _ (i0 + ii.length + 3) rfl]
+    exact (hbodyAt m' j' ⟨hyp.1.down j' hlt, hyp.2.down j' hlt⟩ (lower m' j' hlt)).1
+  have hQ := hhead m j ⟨hex, hend⟩
+  refine ⟨?_, ?_⟩
+  · -- the init statement, then the jump to the test
+    refine R2.silL (lab_label hit0) ?_
+    rw [LPos.next_eq r _ (i0 + 1) rfl]
+    refine hI.corr r _ hpI (afterCtxL_label hit0) (tbl b).length _ agI m j (fun _ => ?_)
+    have e : i0 + 1 + ii.length = i0 + ii.length + 1 := by omega
+    rw [e]
+    refine R2.silL (lab_jump hitJ jump_isJump) ?_
+    rw [htgt5]; exact hQ
+  have hexp := (hbodyAt m j ⟨hex, hend⟩ hQ).2
+  have hpush := Pushes.push b (.halt (evInvalid "loop test"))
+  have hpI' : Pushes (b.push (.halt (evInvalid "loop test"))).1 RI.1 := by rw [← hRI]; exact hE.pushes _ _
+  have hpInit := hI.pushes (tbl b).length (RB.1.set (tbl b).length (.test (hdrEv hd) RB.2 k))
+  refine LabExport.mono hexp (hpush.trans hpI').len (fun i hi => (hpush.trans hpI').same hi) (fun i hi => ?_)
+  have hl4 : (tbl b).length ≤ (tbl (RB.1.set (tbl b).length (.test (hdrEv hd) RB.2 k))).length := hg4'.len
+  rw [hpInit.same (by omega), tbl_set, List.getElem?_set_ne (by omega)]
 
 /-- `ForBlockCompileHandler.collect()` -/
-theorem for_pm (cx : Cx) (fuel : Nat) (env : Src.Env) (he : PlainEnv env) (lb : Nat) (hd : Hdr) (init inc : Stmt) (body : Stmts)
+theorem for_pm (cx : Cx) (fuel : Nat) (env : Src.Env) (he : EnvOK cx env) (lb : Nat) (hd : Hdr) (init inc : Stmt) (body : Stmts)
     (initM incM bodyM : M (List LItem)) (ht : isTest hd.name = true)
     (hI : ∀ s items s', initM s = .ok (items, s') →
-      SimpleOK cx items (fun k b => Src.tr fuel [] env (toSrcStmt init) k b) ∧ s'.loops = s.loops ∧ s'.cases = s.cases)
+      SimpleOK cx items (fun k b => Src.tr fuel [] env (toSrcStmt init) k b) ∧ SameStk s s')
     (hE : ∀ s items s', incM s = .ok (items, s') →
-      SimpleOK cx items (fun k b => Src.tr fuel [] env (toSrcStmt inc) k b) ∧ s'.loops = s.loops ∧ s'.cases = s.cases)
-    (hBody : ∀ env', PlainEnv env' → PM cx bodyM (fun k b => Src.trStmts fuel [] env' (toSrcStmts body) k b) env') :
+      SimpleOK cx items (fun k b => Src.tr fuel [] env (toSrcStmt inc) k b) ∧ SameStk s s')
+    (hBody : ∀ env', EnvOK cx env' → PM cx bodyM (fun k b => Src.trStmts fuel [] env' (toSrcStmts body) k b) env') :
     PM cx (forOf lb hd initM incM bodyM)
       (fun k b => Src.tr fuel [] env (.for_ (toSrcStmt init) (hdrEv hd) (toSrcStmt inc) (toSrcStmts body)) k b) env := by
   intro s items s' h
@@ -207,11 +221,11 @@ theorem for_pm (cx : Cx) (fuel : Nat) (env : Src.Env) (he : PlainEnv env) (lb : 
   obtain ⟨rfl, rfl⟩ := buildFor_none (b := loopBP hd) rfl h6
   obtain ⟨ops, sb, sL, eB, hrun, e4, hitems⟩ := loop_block_shape h4
   rw [hitems]
-  obtain ⟨sI, lI, cI⟩ := hI _ _ _ h2
-  obtain ⟨sE, lE, cE⟩ := hE _ _ _ h5
+  obtain ⟨sI, ⟨lI, cI, nI⟩⟩ := hI _ _ _ h2
+  obtain ⟨sE, ⟨lE, cE, nE⟩⟩ := hE _ _ _ h5
   have hP := fun env' he' => hBody env' he' _ _ _ hrun
   have hP0 := hP env he
-  refine for_core cx fuel env he lb hd init inc body ht _ _ sL eB sI sE hP ?_ ?_ ?_ ?_
+  refine for_core cx fuel env he lb hd init inc body ht _ _ sL eB sI sE hP ?_ ?_ ?_ ?_ (nI.trans e3.3) (e4.3.trans nE)
   · rw [e3.1, lI]; rfl
   · rw [e3.2, cI]; rfl
   · show s5.loops.tail = s.loops
